@@ -126,6 +126,8 @@ def split_clauses(sig):
     counts = {}
     lines = sig.split('\n')
 
+    cur_col = [None]
+
     def flush(end_line):
         nonlocal cur, cur_start
         txt = '\n'.join(cur).strip()
@@ -140,9 +142,11 @@ def split_clauses(sig):
             if m:
                 props = re.findall(r'C\d+', m.group(1))
             out.append({'section': section, 'idx': counts[section], 'first_line': cur_start, 'last_line': end_line,
+                        'first_col': cur_col[0] if cur_col[0] is not None else 0,
                         'text': re.sub(r'\s+', ' ', re.sub(r'//.*', '', txt)).strip(), 'tag': tag, 'props': props})
         cur = []
         cur_start = None
+        cur_col[0] = None
 
     for li, ln in enumerate(lines):
         code = re.sub(r'//.*', '', ln)
@@ -165,23 +169,36 @@ def split_clauses(sig):
         comment_idx = piece.find('//')
         code_part = piece if comment_idx < 0 else piece[:comment_idx]
         comment_part = '' if comment_idx < 0 else piece[comment_idx:]
-        for ch in code_part:
+        base = len(ln) - len(piece)
+        flushed_here = False
+        for ci, ch in enumerate(code_part):
+            if cur_col[0] is None and not ch.isspace() and not buf.strip():
+                cur_col[0] = base + ci
             if ch in '([{':
                 depth += 1
             elif ch in ')]}':
                 depth -= 1
             if ch == ',' and depth == 0:
-                cur.append(buf + ' ' + comment_part)
-                comment_part = ''
+                cur.append(buf)
                 if cur_start is None:
                     cur_start = li
+                n_before = len(out)
                 flush(li)
+                flushed_here = flushed_here or len(out) > n_before
                 buf = ''
             else:
                 buf += ch
-        if buf.strip() or comment_part:
-            if cur_start is None and buf.strip():
+        if buf.strip():
+            if cur_start is None:
                 cur_start = li
             cur.append(buf + ' ' + comment_part)
+        elif comment_part and flushed_here and out:
+            # a trailing comment belongs to the last clause completed on this line
+            m = re.search(r'//[^\n]*?#(\w[\w.\-]*)', comment_part)
+            if m:
+                out[-1]['tag'] = m.group(1)
+            m = re.search(r'//.*\[((?:C\d+[ ,]*)+)\]', comment_part)
+            if m:
+                out[-1]['props'] = re.findall(r'C\d+', m.group(1))
     flush(len(lines) - 1)
     return out
